@@ -33,6 +33,9 @@ import (
 type Collector struct {
 	mu    sync.Mutex
 	stack ers.Stack
+	// resolved is the snapshot of the stack handed out by Resolve
+	// since the last Add.
+	resolved *ers.Stack
 }
 
 // New constructs an empty Collector. Collectors can be used without
@@ -49,6 +52,7 @@ func (ec *Collector) Add(err error) {
 	}
 	defer with(lock(&ec.mu))
 	ec.stack.Push(err)
+	ec.resolved = nil
 }
 
 // Obesrver returns the collector's Add method as a
@@ -75,7 +79,10 @@ func (ec *Collector) Len() int { defer with(lock(&ec.mu)); return ec.stack.Len()
 // collector.
 func (ec *Collector) Iterator() *fun.Iterator[error] {
 	defer with(lock(&ec.mu))
-	return fun.CheckProducer(ec.stack.CheckProducer()).Iterator()
+	// iterate a snapshot of the head: Add only ever mutates the
+	// head of the collector's own stack.
+	st := ec.stack
+	return fun.CheckProducer(st.CheckProducer()).Iterator()
 }
 
 // Resolve returns an error of type *erc.Stack, or nil if there have
@@ -89,7 +96,16 @@ func (ec *Collector) Resolve() error {
 		return nil
 	}
 
-	return &ec.stack
+	// hand out a snapshot of the head (the same one until the
+	// next Add): the caller inspects the error without the
+	// collector's lock while other goroutines may still Add, and
+	// Add only ever mutates the head of the collector's own stack.
+	if ec.resolved == nil {
+		st := ec.stack
+		ec.resolved = &st
+	}
+
+	return ec.resolved
 }
 
 // HasErrors returns true if there are any underlying errors, and
